@@ -8,6 +8,7 @@
 -/
 import ScoresVerif.Model.Fl
 import ScoresVerif.Lemmas.FlBasic
+import ScoresVerif.Lemmas.Arr
 import Mathlib.Data.List.Perm.Basic
 
 namespace SV.Props.C04
@@ -46,7 +47,31 @@ theorem kernel_perm {α : Type} (k : α → Fl) {c₁ c₂ : List α} (h : c₁.
 theorem aggregate_layout_invariant {α : Type} (k : α → Fl) {c₁ c₂ : List α} (h : c₁.Perm c₂) :
     nanmean (c₁.map k) = nanmean (c₂.map k) := nanmean_perm (kernel_perm k h)
 
+/-! ### Positional storage: labelled arrays (`SV.Arr`, row-major data + an ordered list of dims) -/
+
+/-- storing the same labelled values with ANY other dimension order (a transposition), or broadcast
+    to extra dimensions, leaves the value attached to every label unchanged -/
+theorem relayout_invariant (a : Arr) (dims : List String) (shape : List Nat) (asg : Asg)
+    (hsub : ∀ d ∈ a.dims, d ∈ dims) (hr : Arr.InRange dims shape asg) :
+    (a.relayout dims shape).get asg = a.get asg := Arr.relayout_get a dims shape asg hsub hr
+
+/-- pointwise operations act label by label, whatever the storage order of the two operands
+    (broadcasting by dimension name) -/
+theorem pointwise_by_label (f : Fl → Fl → Fl) (a b : Arr) (asg : Asg)
+    (hr : Arr.InRange (Arr.zipWith f a b).dims (Arr.zipWith f a b).shape asg) :
+    (Arr.zipWith f a b).get asg = f (a.get asg) (b.get asg) := Arr.zipWith_get f a b asg hr
+
+/-- hence a pointwise operation on re-laid-out operands gives the same labelled values -/
+theorem pointwise_relayout (f : Fl → Fl → Fl) (a b : Arr) (dims : List String) (shape : List Nat) (asg : Asg)
+    (hsub : ∀ d ∈ a.dims, d ∈ dims) (hra : Arr.InRange dims shape asg)
+    (hr : Arr.InRange (Arr.zipWith f a b).dims (Arr.zipWith f a b).shape asg)
+    (hr' : Arr.InRange (Arr.zipWith f (a.relayout dims shape) b).dims (Arr.zipWith f (a.relayout dims shape) b).shape asg) :
+    (Arr.zipWith f (a.relayout dims shape) b).get asg = (Arr.zipWith f a b).get asg := by
+  rw [Arr.zipWith_get _ _ _ _ hr', Arr.zipWith_get _ _ _ _ hr, Arr.relayout_get a dims shape asg hsub hra]
+
 /-! Non-vacuity -/
+example : Arr.InRange ["b", "a"] [2, 3] [("a", 2), ("b", 1)] := by
+  refine ⟨by decide, by decide, trivial⟩
 example : nanmean [fin 1, nan, fin 3] = nanmean [nan, fin 3, fin 1] :=
   nanmean_perm (by decide)
 
